@@ -312,7 +312,7 @@ example :
     (fun _ _ _ => { v_nonneg := fun x t => abs_nonneg _, v_ge := fun x t => le_abs_self _,
                     w_nonneg := fun _ _ => le_refl _, wt_nonneg := fun _ _ _ => le_refl _,
                     vt_mem := fun x t ht => ⟨by linarith, by linarith⟩, vt_odd := fun x t _ => rfl })
-    (by norm_num) (by norm_num) (gammaOK_of_tag _ (by intro x h; cases h))
+    (by norm_num) (by norm_num) (gammaOK_of_tag _ trivial (by intro x h; cases h))
     (by
       intro g hg
       simp only [List.mem_cons, List.not_mem_nil, or_false] at hg
